@@ -85,9 +85,11 @@ async fn run_case(case: Vec<String>) -> String {
         Some("3") => ("<sip:a@example.org>;tag=ft;x=1", "sip:b@example.org"),
         _ => ("<sip:a@example.org>;tag=ft;x=1", "<sip:b@example.org>"),
     };
+    // field 12: the Call-ID (hex), when it is to be another one than the usual: a Call-ID is a `word`, not a `token`
+    let call_id = case.get(12).filter(|s| !s.is_empty() && s.as_str() != "-").map(|h| String::from_utf8(unhex(h)).unwrap()).unwrap_or_else(|| "c09-call@host".to_string());
     let text = format!(
-        "OPTIONS sip:me@10.0.0.1 SIP/2.0\r\n{via}From: {from}\r\nTo: {to}\r\nCall-ID: c09-call@host\r\nCSeq: 4242 OPTIONS\r\n{ts}Max-Forwards: 70\r\nUser-Agent: t\r\nContent-Length: 0\r\n\r\n",
-        via = via_lines, from = from_v, to = to_v, ts = ts
+        "OPTIONS sip:me@10.0.0.1 SIP/2.0\r\n{via}From: {from}\r\nTo: {to}\r\nCall-ID: {cid}\r\nCSeq: 4242 OPTIONS\r\n{ts}Max-Forwards: 70\r\nUser-Agent: t\r\nContent-Length: 0\r\n\r\n",
+        via = via_lines, from = from_v, to = to_v, cid = call_id, ts = ts
     );
     if !inject(&endpoint, text.as_bytes(), source, &tp) {
         return "PARSE-FAIL".into();
